@@ -938,13 +938,14 @@ pub fn check_c10(case: &HistoryCase, rep: &mut Report) {
             }
         }
     }
-    // every struct carries the derive line exactly once
-    let n_structs = sent[0].matches("pub struct ").count();
-    let n_derive = sent[0].matches(&format!("#[derive({})]\npub struct ", S_DERIVE)).count();
+    // every struct carries the derive attribute exactly once (counted, not tied to a layout)
+    let n_structs = sent[0].lines().filter(|l| l.trim_start().starts_with("pub struct ")).count();
+    let derive_line = format!("#[derive({})]", S_DERIVE);
+    let n_derive = sent[0].lines().filter(|l| l.trim() == derive_line).count();
     if n_structs != n_derive || sent[0].matches(S_DERIVE).count() != n_structs {
         rep.violation(
             "options:derive-not-on-every-struct",
-            format!("{} structs but {} derive attributes directly above a struct\n{}", n_structs, n_derive, sent[0]),
+            format!("{} structs but {} derive attributes carrying the derive string\n{}", n_structs, n_derive, sent[0]),
             case.to_json(),
         );
         return;
